@@ -244,7 +244,7 @@ const c01Rule = "rapid-drawn lists of 1..4 compression steps sharing one Compres
 	"through the pooled package functions; sources from the segment grammar (random, small-alphabet text, runs, periodic, copy-back at distances " +
 	"incl. 65534..65537, counters) with total-length classes 0..16, 17..64, ..4096, 64Ki+-16, ..1Mi, ..4Mi; HC depth from {0,1,2,3,4,7,16,64," +
 	"Level1..9,65535,65536,65537,2^20,2^32-1}. Pinned: every length 0..16 x every compressor x 6 contents. Non-trivial = the emitted block has " +
-	">= 1 match (reference parse); distinct by hash(source, compressor kind, depth)."
+	">= 1 match (reference parse); distinct by hash(source, compressor kind, depth). Long-lived objects (pinned regimes): targets compressed exactly 255/256/257/65535/65536/65537 calls after nearly identical inputs; after 2^31, 2^32, 2^32+2^31, 2^33 bytes (minus 64 or 4096) through the same object; single sources of 9 MiB of random bytes."
 
 func TestC01Pinned(t *testing.T) {
 	stat.For("C01").SetRule(c01Rule)
